@@ -1,6 +1,8 @@
 /-
-  Helper lemmas for C13 (history-walk model `Model/Walk.lean`): `_topo_reorder` (counting invariant) and the
-  commit-time queue without excludes (graph-search invariant).
+  Helper lemmas for C13 (history-walk model `Model/Walk.lean`): `_topo_reorder` (counting invariant, weight
+  measure for termination), the commit-time queue without excludes (graph-search invariant, pigeonhole for
+  termination), and the queue with every option (soundness invariant: whatever is queued or done is reachable
+  from an include or already excluded).
 -/
 import DulwichModel.Model.Walk
 import DulwichModel.Lemmas.LCA
@@ -793,5 +795,459 @@ theorem filter_shouldReturn_all (g : Graph) (o : Opts) (hs : o.since = none) (hu
   apply List.filter_eq_self.mpr
   intro c _
   simp [shouldReturn, hs, hu]
+
+/-! ## soundness of walks with every option, every clock -/
+
+theorem setAdd_mem (l : List Nat) (c x : Nat) : x ∈ setAdd l c ↔ x = c ∨ x ∈ l := by
+  unfold setAdd
+  split
+  · rename_i h
+    have hc : c ∈ l := by simpa using h
+    constructor
+    · exact Or.inr
+    · rintro (rfl | h')
+      · exact hc
+      · exact h'
+  · simp
+
+theorem excludeParent_spec (seen : List Nat) (acc : List Nat × List Nat) (p : Nat) :
+    (∀ x, x ∈ acc.1 → x ∈ (excludeParent seen acc p).1) ∧ p ∈ (excludeParent seen acc p).1 := by
+  unfold excludeParent
+  exact ⟨fun x hx => (setAdd_mem _ _ _).mpr (Or.inr hx), (setAdd_mem _ _ _).mpr (Or.inl rfl)⟩
+
+theorem excludeFold_spec (seen : List Nat) : ∀ (ps : List Nat) (acc : List Nat × List Nat),
+    (∀ x, x ∈ acc.1 → x ∈ (ps.foldl (excludeParent seen) acc).1) ∧
+    (∀ p, p ∈ ps → p ∈ (ps.foldl (excludeParent seen) acc).1)
+  | [], acc => ⟨fun _ h => h, fun _ h => nomatch h⟩
+  | q :: ps, acc => by
+    simp only [List.foldl_cons]
+    obtain ⟨h1, h2⟩ := excludeParent_spec seen acc q
+    obtain ⟨i1, i2⟩ := excludeFold_spec seen ps (excludeParent seen acc q)
+    refine ⟨fun x hx => i1 x (h1 x hx), fun p hp => ?_⟩
+    rcases List.mem_cons.mp hp with rfl | hp
+    · exact i1 _ h2
+    · exact i2 p hp
+
+theorem excludeParents_mono (g : Graph) (seen : List Nat) : ∀ (fuel : Nat) (todo ex ex' : List Nat),
+    excludeParents g seen fuel todo ex = some ex' → ∀ x, x ∈ ex → x ∈ ex'
+  | _, [], ex, ex', h => by simp only [excludeParents] at h; cases h; exact fun _ hx => hx
+  | 0, _ :: _, _, _, h => by simp [excludeParents] at h
+  | fuel + 1, c :: todo, ex, ex', h => by
+    simp only [excludeParents] at h
+    intro x hx
+    exact excludeParents_mono g seen fuel _ _ ex' h x ((excludeFold_spec seen (g.parents c) (ex, todo)).1 x hx)
+
+/-- `_exclude_parents(commit)` marks every parent of the commit -/
+theorem excludeParents_parents (g : Graph) (seen : List Nat) (fuel : Nat) (c : Nat) (ex ex' : List Nat)
+    (h : excludeParents g seen (fuel + 1) [c] ex = some ex') :
+    (∀ x, x ∈ ex → x ∈ ex') ∧ ∀ p, p ∈ g.parents c → p ∈ ex' := by
+  refine ⟨excludeParents_mono g seen _ _ _ _ h, fun p hp => ?_⟩
+  simp only [excludeParents] at h
+  exact excludeParents_mono g seen fuel _ _ ex' h p ((excludeFold_spec seen (g.parents c) (ex, [])).2 p hp)
+
+/-- the part of the queue state the invariant talks about -/
+def core (s : QSt) : List Entry × List Nat × List Nat × List Nat := (s.pq, s.pqSet, s.done, s.excluded)
+
+structure GInv (g : Graph) (incl : List Nat) (s : QSt) : Prop where
+  pqmap : s.pq.map (·.2) = s.pqSet
+  pqnodup : s.pqSet.Nodup
+  dnodup : s.done.Nodup
+  disj : ∀ c, c ∈ s.done → c ∉ s.pqSet
+  sound : ∀ c, (c ∈ s.done ∨ c ∈ s.pqSet) → (∃ i, i ∈ incl ∧ Anc g c i) ∨ c ∈ s.excluded
+
+theorem GInv.of_core {g : Graph} {incl : List Nat} {s : QSt} (h : GInv g incl s) (s' : QSt)
+    (hc : core s' = core s) : GInv g incl s' := by
+  simp only [core, Prod.mk.injEq] at hc
+  obtain ⟨h1, h2, h3, h4⟩ := hc
+  exact ⟨by rw [h1, h2]; exact h.pqmap, by rw [h2]; exact h.pqnodup, by rw [h3]; exact h.dnodup,
+         by rw [h2, h3]; exact h.disj, by rw [h2, h3, h4]; exact h.sound⟩
+
+/-- the exclusion part of one `_step()` iteration, on the state after the parents were pushed -/
+def stepEx (g : Graph) (s3 : QSt) (c : Nat) : Option (QSt × Bool) :=
+  if s3.excluded.contains c then
+    match excludeParents g s3.seen (g.n + 2) [c] s3.excluded with
+    | none => none
+    | some ex =>
+      let s4 : QSt := { s3 with excluded := ex }
+      let reset :=
+        if !s4.pq.isEmpty && s4.pq.all (fun e => ex.contains e.2) then
+          match s4.pq, s4.last with
+          | e :: r, some l => decide ((LCA.best e r).1 ≥ g.ts l)
+          | _, _ => false
+        else true
+      some (s4, reset)
+  else some (s3, true)
+
+/-- the return / continue decision of one `_step()` iteration once `reset_extra_commits` is known -/
+def stepFin (g : Graph) (since : Option Int) (fuel : Nat) (c : Nat) (isEx : Bool) (s5 : QSt) (reset : Bool) :
+    Option (QSt × Option Nat) :=
+  if reset then
+    let s6 : QSt := { s5 with extraLeft := (Gen.walkMaxExtraCommits : Int) }
+    if !isEx then some ({ s6 with last := some c }, some c) else step g since fuel s6
+  else
+    let s6 : QSt := { s5 with extraLeft := s5.extraLeft - 1 }
+    if s6.extraLeft = 0 then some ({ s6 with finished := true }, none)
+    else if !isEx then some ({ s6 with last := some c }, some c) else step g since fuel s6
+
+/-- the slop bookkeeping (`since`) followed by the decision -/
+def stepTail (g : Graph) (since : Option Int) (fuel : Nat) (c : Nat) (isEx : Bool) (s5 : QSt) (reset0 : Bool) :
+    Option (QSt × Option Nat) :=
+  stepFin g since fuel c isEx s5
+    (match since with
+      | some m => if g.ts c < m then false else reset0
+      | none => reset0)
+
+theorem step_eq (g : Graph) (since : Option Int) (fuel : Nat) (s : QSt) :
+    step g since (fuel + 1) s =
+      match popMax s.pq with
+      | none => some ({ s with finished := true }, none)
+      | some ((_, c), rest) =>
+        if s.done.contains c = true then
+          step g since fuel { s with pq := rest, pqSet := s.pqSet.erase c }
+        else
+          match stepEx g (afterPop g s c rest) c with
+          | none => none
+          | some (s5, reset0) =>
+            stepTail g since fuel c ((afterPop g s c rest).excluded.contains c) s5 reset0 := by
+  rw [step]
+  cases popMax s.pq with
+  | none => rfl
+  | some r =>
+    obtain ⟨⟨dt, c⟩, rest⟩ := r
+    rfl
+
+/-- what one `_step()` call guarantees, relative to the state it started from -/
+structure StepOut (g : Graph) (incl : List Nat) (s s' : QSt) (r : Option Nat) : Prop where
+  inv : GInv g incl s'
+  ex : ∀ x, x ∈ s.excluded → x ∈ s'.excluded
+  done : ∀ x, x ∈ s.done → x ∈ s'.done
+  ret : ∀ c, r = some c → c ∉ s.done ∧ c ∈ s'.done ∧ ∃ i, i ∈ incl ∧ Anc g c i
+
+theorem stepTail_sound {g : Graph} {incl : List Nat} {since : Option Int} {fuel : Nat}
+    (ih : ∀ s s' r, GInv g incl s → step g since fuel s = some (s', r) → StepOut g incl s s' r)
+    {s s5 : QSt} {c : Nat} {isEx reset0 : Bool} {s' : QSt} {r : Option Nat}
+    (h5 : GInv g incl s5) (hex : ∀ x, x ∈ s.excluded → x ∈ s5.excluded) (hdone : s5.done = c :: s.done)
+    (hc : c ∉ s.done) (hret : isEx = false → ∃ i, i ∈ incl ∧ Anc g c i)
+    (h : stepTail g since fuel c isEx s5 reset0 = some (s', r)) : StepOut g incl s s' r := by
+  -- the three kinds of outcome
+  have hreturn : ∀ s6 : QSt, core s6 = core s5 → isEx = false →
+      StepOut g incl s s6 (some c) := by
+    intro s6 hcore hne
+    have hd6 : s6.done = s5.done := by
+      simp only [core, Prod.mk.injEq] at hcore; exact hcore.2.2.1
+    have he6 : s6.excluded = s5.excluded := by
+      simp only [core, Prod.mk.injEq] at hcore; exact hcore.2.2.2
+    refine ⟨h5.of_core s6 hcore, fun x hx => by rw [he6]; exact hex x hx,
+            fun x hx => by rw [hd6, hdone]; exact List.mem_cons_of_mem _ hx, ?_⟩
+    intro c' hc'
+    cases hc'
+    exact ⟨hc, by rw [hd6, hdone]; exact List.mem_cons_self, hret hne⟩
+  have hfinish : ∀ s6 : QSt, core s6 = core s5 → StepOut g incl s s6 none := by
+    intro s6 hcore
+    have hd6 : s6.done = s5.done := by
+      simp only [core, Prod.mk.injEq] at hcore; exact hcore.2.2.1
+    have he6 : s6.excluded = s5.excluded := by
+      simp only [core, Prod.mk.injEq] at hcore; exact hcore.2.2.2
+    exact ⟨h5.of_core s6 hcore, fun x hx => by rw [he6]; exact hex x hx,
+           fun x hx => by rw [hd6, hdone]; exact List.mem_cons_of_mem _ hx, fun _ h => nomatch h⟩
+  have hrec : ∀ s6 : QSt, core s6 = core s5 → step g since fuel s6 = some (s', r) →
+      StepOut g incl s s' r := by
+    intro s6 hcore hstep
+    have hd6 : s6.done = s5.done := by
+      simp only [core, Prod.mk.injEq] at hcore; exact hcore.2.2.1
+    have he6 : s6.excluded = s5.excluded := by
+      simp only [core, Prod.mk.injEq] at hcore; exact hcore.2.2.2
+    have := ih s6 s' r (h5.of_core s6 hcore) hstep
+    refine ⟨this.inv, fun x hx => this.ex x (by rw [he6]; exact hex x hx),
+            fun x hx => this.done x (by rw [hd6, hdone]; exact List.mem_cons_of_mem _ hx), ?_⟩
+    intro c' hc'
+    obtain ⟨h1, h2, h3⟩ := this.ret c' hc'
+    refine ⟨fun hin => h1 (by rw [hd6, hdone]; exact List.mem_cons_of_mem _ hin), h2, h3⟩
+  unfold stepTail at h
+  generalize (match since with
+      | some m => if g.ts c < m then false else reset0
+      | none => reset0) = reset at h
+  unfold stepFin at h
+  cases reset with
+  | true =>
+    simp only [if_true] at h
+    cases isEx with
+    | false =>
+      simp only [Bool.not_false, if_true, Option.some.injEq, Prod.mk.injEq] at h
+      obtain ⟨rfl, rfl⟩ := h
+      exact hreturn _ rfl rfl
+    | true =>
+      simp only [Bool.not_true, Bool.false_eq_true, if_false] at h
+      refine hrec _ ?_ h
+      rfl
+  | false =>
+    simp only [Bool.false_eq_true, if_false] at h
+    split at h
+    · simp only [Option.some.injEq, Prod.mk.injEq] at h
+      obtain ⟨rfl, rfl⟩ := h
+      exact hfinish _ rfl
+    · cases isEx with
+      | false =>
+        simp only [Bool.not_false, if_true, Option.some.injEq, Prod.mk.injEq] at h
+        obtain ⟨rfl, rfl⟩ := h
+        exact hreturn _ rfl rfl
+      | true =>
+        simp only [Bool.not_true, Bool.false_eq_true, if_false] at h
+        refine hrec _ ?_ h
+        rfl
+
+/-- structural facts about the state after a pop, under the general invariant -/
+theorem afterPop_ginv {g : Graph} {incl : List Nat} {s : QSt} {dt : Int} {c : Nat} {rest : List Entry}
+    (h : GInv g incl s) (hpop : popMax s.pq = some ((dt, c), rest)) :
+    c ∈ s.pqSet ∧ (afterPop g s c rest).done = c :: s.done ∧ (afterPop g s c rest).excluded = s.excluded ∧
+    (afterPop g s c rest).pq.map (·.2) = (afterPop g s c rest).pqSet ∧ (afterPop g s c rest).pqSet.Nodup ∧
+    (∀ y, y ∈ c :: s.done → y ∉ (afterPop g s c rest).pqSet) ∧
+    (∀ x, x ∈ (afterPop g s c rest).pqSet → x ∈ s.pqSet ∨ x ∈ g.parents c) := by
+  obtain ⟨hb, hrest, _⟩ := popMax_spec hpop
+  have hcq : c ∈ s.pqSet := by
+    rw [← h.pqmap]; exact List.mem_map.mpr ⟨(dt, c), hb, rfl⟩
+  let s0 : QSt := { s with pq := rest, pqSet := s.pqSet.erase c, done := c :: s.done }
+  obtain ⟨hrel, _, hsub⟩ := pushFold_rel g (g.parents c) s0
+  have hmem_erase : ∀ y, y ∈ s.pqSet.erase c ↔ y ≠ c ∧ y ∈ s.pqSet := fun y =>
+    List.Nodup.mem_erase_iff h.pqnodup
+  have h0map : s0.pq.map (·.2) = s0.pqSet := by
+    show (rest.map (·.2)) = s.pqSet.erase c
+    rw [hrest, map_snd_erase _ _ _ (by rw [h.pqmap]; exact h.pqnodup) hb, h.pqmap]
+  have h0disj : ∀ y, y ∈ s0.done → y ∉ s0.pqSet := by
+    intro y hy
+    show y ∉ s.pqSet.erase c
+    rw [hmem_erase]
+    rcases List.mem_cons.mp hy with rfl | hy
+    · exact fun hh => hh.1 rfl
+    · exact fun hh => h.disj y hy hh.2
+  refine ⟨hcq, by unfold afterPop; rw [pushFold_done], by unfold afterPop; rw [pushFold_excluded],
+          hrel.pqmap h0map, hrel.nodup (h.pqnodup.erase c), hrel.disj h0disj, ?_⟩
+  intro x hx
+  rcases hsub x hx with h1 | h1
+  · exact Or.inl ((hmem_erase x).mp h1).2
+  · exact Or.inr h1
+
+theorem step_sound {g : Graph} {incl : List Nat} {since : Option Int} :
+    ∀ (fuel : Nat) (s s' : QSt) (r : Option Nat), GInv g incl s → step g since fuel s = some (s', r) →
+      StepOut g incl s s' r := by
+  intro fuel
+  induction fuel with
+  | zero => intro s s' r _ h; simp [step] at h
+  | succ fuel ih =>
+    intro s s' r hinv h
+    rw [step_eq] at h
+    cases hpop : popMax s.pq with
+    | none =>
+      rw [hpop] at h
+      simp only [Option.some.injEq, Prod.mk.injEq] at h
+      obtain ⟨rfl, rfl⟩ := h
+      exact ⟨hinv.of_core _ rfl, fun _ hx => hx, fun _ hx => hx, fun _ h => nomatch h⟩
+    | some pr =>
+      obtain ⟨⟨dt, c⟩, rest⟩ := pr
+      rw [hpop] at h
+      simp only at h
+      obtain ⟨hcq, hdone3, hex3, hmap3, hnd3, hdisj3, hsub3⟩ := afterPop_ginv hinv hpop
+      have hcd : c ∉ s.done := fun hd => hinv.disj c hd hcq
+      have hnc : ¬ s.done.contains c = true := by simpa using hcd
+      simp only [hnc, if_false] at h
+      -- the commit's own justification
+      have hcs := hinv.sound c (Or.inr hcq)
+      -- invariant for a state with the core of `afterPop` but a grown excluded set containing what is needed
+      have mk : ∀ (s5 : QSt), s5.pq = (afterPop g s c rest).pq → s5.pqSet = (afterPop g s c rest).pqSet →
+          s5.done = c :: s.done → (∀ x, x ∈ s.excluded → x ∈ s5.excluded) →
+          ((∃ i, i ∈ incl ∧ Anc g c i) ∨ ∀ p, p ∈ g.parents c → p ∈ s5.excluded) → GInv g incl s5 := by
+        intro s5 e1 e2 e3 hmono hpar
+        refine ⟨by rw [e1, e2]; exact hmap3, by rw [e2]; exact hnd3,
+                by rw [e3]; exact List.nodup_cons.mpr ⟨hcd, hinv.dnodup⟩,
+                by rw [e2, e3]; exact hdisj3, ?_⟩
+        intro x hx
+        have lift : ((∃ i, i ∈ incl ∧ Anc g x i) ∨ x ∈ s.excluded) →
+            ((∃ i, i ∈ incl ∧ Anc g x i) ∨ x ∈ s5.excluded) := fun h => h.imp id (hmono x)
+        rw [e2, e3] at hx
+        rcases hx with hx | hx
+        · rcases List.mem_cons.mp hx with rfl | hx
+          · exact lift hcs
+          · exact lift (hinv.sound x (Or.inl hx))
+        · rcases hsub3 x hx with h1 | h1
+          · exact lift (hinv.sound x (Or.inr h1))
+          · rcases hpar with ⟨i, hi, ha⟩ | hpar
+            · exact Or.inl ⟨i, hi, (Anc.parent h1).trans ha⟩
+            · exact Or.inr (hpar x h1)
+      by_cases hexc : (afterPop g s c rest).excluded.contains c = true
+      · -- excluded commit
+        simp only [stepEx, hexc, if_true] at h
+        cases hep : excludeParents g (afterPop g s c rest).seen (g.n + 2) [c] (afterPop g s c rest).excluded with
+        | none => rw [hep] at h; simp at h
+        | some ex =>
+          rw [hep] at h
+          simp only at h
+          obtain ⟨hm, hp⟩ := excludeParents_parents g _ (g.n + 1) c _ ex hep
+          rw [hex3] at hm
+          exact stepTail_sound ih
+            (mk { afterPop g s c rest with excluded := ex } rfl rfl hdone3 hm (Or.inr hp)) hm hdone3 hcd
+            (fun hf => by simp at hf) h
+      · -- ordinary commit
+        simp only [stepEx, hexc] at h
+        have hcne : c ∉ s.excluded := by
+          rw [hex3] at hexc; simpa using hexc
+        have hci : ∃ i, i ∈ incl ∧ Anc g c i := by
+          rcases hcs with h1 | h1
+          · exact h1
+          · exact absurd h1 hcne
+        have hm : ∀ x, x ∈ s.excluded → x ∈ (afterPop g s c rest).excluded := by
+          intro x hx; rw [hex3]; exact hx
+        exact stepTail_sound ih (mk _ rfl rfl hdone3 hm (Or.inl hci)) hm hdone3 hcd (fun _ => hci) h
+
+theorem drain_sound {g : Graph} {incl : List Nat} {since : Option Int} :
+    ∀ (fuel : Nat) (s : QSt) (acc : List Nat) (s' : QSt) (out : List Nat), GInv g incl s → acc.Nodup →
+      (∀ c, c ∈ acc → c ∈ s.done ∧ ∃ i, i ∈ incl ∧ Anc g c i) →
+      drain g since fuel s acc = some (s', out) →
+      (∀ x, x ∈ s.excluded → x ∈ s'.excluded) ∧ out.Nodup ∧ ∀ c, c ∈ out → ∃ i, i ∈ incl ∧ Anc g c i
+  | 0, _, _, _, _, _, _, _, h => by simp [drain] at h
+  | fuel + 1, s, acc, s', out, hinv, hnd, hacc, h => by
+    simp only [drain] at h
+    cases hstep : step g since (g.n + 1) s with
+    | none => rw [hstep] at h; simp at h
+    | some pr =>
+      obtain ⟨s1, r⟩ := pr
+      rw [hstep] at h
+      have hso := step_sound _ _ _ _ hinv hstep
+      cases r with
+      | none =>
+        simp only [Option.some.injEq, Prod.mk.injEq] at h
+        obtain ⟨rfl, rfl⟩ := h
+        refine ⟨hso.ex, (List.Perm.nodup_iff (List.reverse_perm acc)).mpr hnd, fun c hc => ?_⟩
+        exact (hacc c (List.mem_reverse.mp hc)).2
+      | some c =>
+        simp only at h
+        obtain ⟨hc1, hc2, hc3⟩ := hso.ret c rfl
+        have := drain_sound fuel s1 (c :: acc) s' out hso.inv
+          (List.nodup_cons.mpr ⟨fun hin => hc1 (hacc c hin).1, hnd⟩)
+          (by
+            intro x hx
+            rcases List.mem_cons.mp hx with rfl | hx
+            · exact ⟨hc2, hc3⟩
+            · exact ⟨hso.done x (hacc x hx).1, (hacc x hx).2⟩) h
+        exact ⟨fun x hx => this.1 x (hso.ex x hx), this.2⟩
+
+theorem qInit_ginv (g : Graph) (incl excl : List Nat) :
+    GInv g incl (qInit g incl excl) ∧ ∀ x, x ∈ excl → x ∈ (qInit g incl excl).excluded := by
+  unfold qInit
+  let s0 : QSt := { pq := [], pqSet := [], seen := [], done := [], excluded := excl.eraseDups,
+                    last := none, extraLeft := (Gen.walkMaxExtraCommits : Int), finished := false }
+  obtain ⟨hrel, _, hsub⟩ := pushFold_rel g (incl ++ excl) s0
+  have hd : ((incl ++ excl).foldl (push g) s0).done = [] := by rw [pushFold_done]
+  have hex : ((incl ++ excl).foldl (push g) s0).excluded = excl.eraseDups := by rw [pushFold_excluded]
+  have hdn : ((incl ++ excl).foldl (push g) s0).done.Nodup := by rw [hd]; exact List.nodup_nil
+  have hdj : ∀ c, c ∈ ((incl ++ excl).foldl (push g) s0).done → c ∉ ((incl ++ excl).foldl (push g) s0).pqSet := by
+    intro c hc; rw [hd] at hc; cases hc
+  refine ⟨⟨hrel.pqmap rfl, hrel.nodup List.nodup_nil, hdn, hdj, ?_⟩,
+          fun x hx => by rw [hex]; exact List.mem_eraseDups.mpr hx⟩
+  intro c hc
+  rcases hc with hc | hc
+  · rw [hd] at hc; cases hc
+  · rcases hsub c hc with h1 | h1
+    · cases h1
+    · rcases List.mem_append.mp h1 with h2 | h2
+      · exact Or.inl ⟨c, h2, Anc.refl c⟩
+      · right; rw [hex]; exact List.mem_eraseDups.mpr h2
+
+/-- everything the queue yields, for any excludes and any `since`: distinct commits reachable from the start
+points; the final `excluded` set contains the exclude start points -/
+theorem queueOutput_sound {g : Graph} {incl excl : List Nat} {since : Option Int} {q ex : List Nat}
+    (h : queueOutput g incl excl since = some (q, ex)) :
+    q.Nodup ∧ (∀ c, c ∈ q → ∃ i, i ∈ incl ∧ Anc g c i) ∧ ∀ x, x ∈ excl → x ∈ ex := by
+  unfold queueOutput at h
+  split at h
+  · cases h
+  · rename_i s out hdrain
+    obtain ⟨hinv, hexcl⟩ := qInit_ginv g incl excl
+    obtain ⟨hmono, hnd, hmem⟩ := drain_sound _ _ _ _ _ hinv List.nodup_nil (fun _ h => nomatch h) hdrain
+    split at h
+    · simp only [Option.some.injEq, Prod.mk.injEq] at h
+      obtain ⟨rfl, rfl⟩ := h
+      exact ⟨hnd, hmem, fun x hx => hmono x (hexcl x hx)⟩
+    · simp only [Option.some.injEq, Prod.mk.injEq] at h
+      obtain ⟨rfl, rfl⟩ := h
+      exact ⟨List.Nodup.sublist List.filter_sublist hnd, fun c hc => hmem c (List.mem_filter.mp hc).1,
+             fun x hx => hmono x (hexcl x hx)⟩
+
+
+theorem shouldReturn_spec {g : Graph} {o : Opts} {ex : List Nat} {c : Nat} (h : shouldReturn g o ex c = true) :
+    (∀ m, o.since = some m → m ≤ g.ts c) ∧ (∀ m, o.untl = some m → g.ts c ≤ m) ∧ c ∉ ex := by
+  unfold shouldReturn at h
+  simp only [Bool.and_eq_true, Bool.not_eq_true', List.contains_eq_mem, decide_eq_false_iff_not] at h
+  obtain ⟨⟨h1, h2⟩, h3⟩ := h
+  refine ⟨fun m hm => ?_, fun m hm => ?_, h3⟩
+  · rw [hm] at h1; simp only [Bool.not_eq_true', decide_eq_false_iff_not] at h1; omega
+  · rw [hm] at h2; simp only [Bool.not_eq_true', decide_eq_false_iff_not] at h2; omega
+
+/-- every option, every clock: the walker's output consists of distinct commits that are reachable from the
+start points, are not exclude start points, lie in the `since..until` window, and are at most `max_entries` -/
+theorem walk_sound_all {g : Graph} {o : Opts} (rk : Nat → Nat) (hrk : ∀ c p, p ∈ g.parents c → rk p < rk c)
+    {out : List Nat} (h : walk g o = some out) :
+    out.Nodup ∧ (∀ m, o.maxEntries = some m → out.length ≤ m) ∧
+    ∀ c, c ∈ out → (∃ i, i ∈ o.incl ∧ Anc g c i) ∧ c ∉ o.excl ∧
+      (∀ m, o.since = some m → m ≤ g.ts c) ∧ (∀ m, o.untl = some m → g.ts c ≤ m) := by
+  unfold walk at h
+  split at h
+  · cases h
+  · rename_i q ex hq
+    obtain ⟨hnd, hmem, hexcl⟩ := queueOutput_sound hq
+    simp only at h
+    have key : ∀ (limited : List Nat), limited.Sublist (q.filter (shouldReturn g o ex)) →
+        (∀ m, o.maxEntries = some m → limited.length ≤ m) →
+        (match (if o.topo = true then topoReorder g.parents limited else some limited) with
+          | none => none
+          | some l => some (if o.reverse = true then l.reverse else l)) = some out →
+        out.Nodup ∧ (∀ m, o.maxEntries = some m → out.length ≤ m) ∧
+        ∀ c, c ∈ out → (∃ i, i ∈ o.incl ∧ Anc g c i) ∧ c ∉ o.excl ∧
+          (∀ m, o.since = some m → m ≤ g.ts c) ∧ (∀ m, o.untl = some m → g.ts c ≤ m) := by
+      intro limited hsub hlen h
+      have hlnd : limited.Nodup := List.Nodup.sublist (hsub.trans List.filter_sublist) hnd
+      have hlmem : ∀ c, c ∈ limited → (∃ i, i ∈ o.incl ∧ Anc g c i) ∧ c ∉ o.excl ∧
+          (∀ m, o.since = some m → m ≤ g.ts c) ∧ (∀ m, o.untl = some m → g.ts c ≤ m) := by
+        intro c hc
+        have hc' := List.mem_filter.mp (hsub.subset hc)
+        obtain ⟨h1, h2, h3⟩ := shouldReturn_spec hc'.2
+        exact ⟨hmem c hc'.1, fun hx => h3 (hexcl c hx), h1, h2⟩
+      have hperm : out.Perm limited := by
+        cases htopo : o.topo with
+        | true =>
+          simp only [htopo, if_true] at h
+          cases hl : topoReorder g.parents limited with
+          | none => rw [hl] at h; cases h
+          | some l =>
+            rw [hl] at h
+            have := (topoLoop_correct hlnd rk hrk _ _ _ _ (topoReorder_init g.parents limited) hl).1
+            simp only [Option.some.injEq] at h
+            subst h
+            split
+            · exact (List.reverse_perm l).trans this
+            · exact this
+        | false =>
+          simp only [htopo, Bool.false_eq_true, if_false, Option.some.injEq] at h
+          subst h
+          split
+          · exact List.reverse_perm _
+          · exact List.Perm.refl _
+      exact ⟨(List.Perm.nodup_iff hperm).mpr hlnd, fun m hm => by rw [hperm.length_eq]; exact hlen m hm,
+             fun c hc => hlmem c (hperm.mem_iff.mp hc)⟩
+    cases hmx : o.maxEntries with
+    | none =>
+      simp only [hmx] at h
+      have r := key _ (List.Sublist.refl _) (fun m hm => by rw [hmx] at hm; cases hm) h
+      rw [hmx] at r
+      exact r
+    | some m =>
+      simp only [hmx] at h
+      have r := key _ (List.take_sublist _ _) (fun m' hm' => by
+        rw [hmx] at hm'
+        cases hm'
+        simp only [List.length_take]
+        omega) h
+      rw [hmx] at r
+      exact r
+
 
 end Dulwich.Walk
